@@ -46,7 +46,36 @@ EXTRA_TB["C20"] = [
   "Spec/VarsHistory.v (what a select list denotes as a register history) is part of the statement of C20_linearisation and is read, not proved",
 ]
 
+EXTRA_TB["C19"] = list(ENGINE_TB) + [
+  "the fault-injecting user function is modelled as a PURE function of its arguments (Model/Faults.v fault_call): FAULT(tag, x[, ret]) fails iff (tag, x) is the trigger; the harness gives every call site a distinct literal tag and a row-identifying argument, fails the k-th invocation BY COUNT on the real code and hands the model the (tag, x) pair of that invocation",
+  "RAISE / RAISE_WHEN transcribed from functions.go; qualifiers: none and SCOPED modelled, ONCE/GLOBAL/ASYNC/SPIN answer OutOfModel (ONCE cases are still checked on the real code for (no rows, error) and usability)",
+  "calls inside a join's ON clause: fault_join = exec_join with the hook threaded into the ON evaluator; faithful for call arguments without column references only",
+  "'usable afterwards' is observed on the real code after EVERY run (3 follow-up queries on the same document vs. a pristine deep copy + deep comparison of the document); its proof side is C11 + absence of cross-query state",
+]
+EXTRA_TB["C18"] = [
+  "standard library as oracles (record `oracles` in Model/Funcs.v): encoding/gob, base64.URLEncoding, base32.StdEncoding, crypto sha1/sha256/sha512/md5, strings.ToLower/ToUpper, strconv.ParseFloat/Atoi; the laws used are explicit premises of the theorems (codec_laws, hash_len_law, strconv_law); encoding/hex is modelled exactly",
+  "executable oracle instance (Model/FuncsInst.v): outputs depending on gob/base64/base32/hashes are compared through the laws on the Go side (round trip through the engine's own DECODE, determinism, hex length/charset), never byte for byte",
+  "int(float64) modelled as on amd64; non-JSON Go values are represented as reserved single-key objects on both sides",
+]
+EXTRA_TB["C12"] = list(ENGINE_TB)
+
 ASSUME = {
+    "C19": [
+  "synchronous evaluation only (the property text excludes ASYNC/SPIN); AWAIT not generated",
+  "theorems compare two runs of the same query on the same document under two call hooks related pointwise by R (same answer, or Err, or Panic when the panicking variant is allowed); the FAULT hook is one instance",
+  "C19_type_error_is_error_*: the outcome is Err unless an earlier row already left the model (then OutOfModel); it is never Ok",
+    ],
+    "C18": [
+  "arguments are JSON-like values; NaN/Inf only as results of CHANGETYPE (skipped)",
+  "not modelled (not generated): ASYNC/SPIN/ONCE/GLOBAL qualifiers and AWAIT, the state change of SETVAR and the callback of REPORT (C20/C14), FUSE/DEFAULTKEY beyond arity/NULL/type errors",
+  "CONCAT with a NULL argument: known finding D42 (signature tag concat.null-arg)",
+  "SETVAR without WithVars is a nil-map write recovered by exec's frame: an error at the API level on both trees (C18_only_panic_is_setvar_nil_map)",
+    ],
+    "C12": [
+  "query_ok: no user-chosen name `<-`; inside subqueries no `SELECT * FROM dual` and no pure-`<-` path projected as a value (a query that explicitly selects the back reference gets it; the Go code deletes the `<-` key of star projections in a post-processor)",
+  "the multiset of rows is order-independent, but a float aggregate over a join can depend on the order in which rows are added; after the fix that makes join output follow the left table's order this no longer varies between runs (PARALLEL variants: batches are concatenated in key order)",
+  "wrapper / pointer / thunk / cycle freedom is a typing fact of the model's value type; on the real code it is observed by the Go-type walk, the cycle check and the encoding/json round trip of every result",
+    ],
     "C04": [
   "wf_join: both sides are aliased rows {alias: row} with distinct aliases; ON is an AND/OR combination of comparisons between one x.col and one y.col; key values are scalars whose %v text determines them within a column (text_faithful: one scalar kind per key column) and zero_safe per comparison; hash theorems additionally need hash_faithful (vcompare = 0 <-> equal key text after -0 normalisation), discharged from FloatAxioms.eqb_spec/ltb_spec for numbers",
   "outside the premises (mixed-kind key column such as 9 and \"9\", or -0 against a string) the engine groups rows by key text and may deviate from the textbook; refuted-lemmas record the witnesses; the property speaks of keys of either scalar kind per column, so these are scope limits, not findings",
@@ -114,7 +143,7 @@ CONFIG = {
     "C15": {"shard": 600},
     "C09": {"shard": 200},
     "C17": {"shard": 400},
-    "C16": {"shard": 300}, "C20": {"shard": 90},
+    "C16": {"shard": 300}, "C20": {"shard": 90}, "C19": {"shard": 60}, "C18": {"shard": 400},
     "C11": {"shard": 300}, "C10": {"shard": 300}, "C12": {"shard": 150},
     "C01": {"shard": 120}, "C02": {"shard": 120}, "C03": {"shard": 100}, "C04": {"shard": 110},
     "C05": {"shard": 120}, "C06": {"shard": 100}, "C07": {"shard": 100}, "C08": {"shard": 100},
